@@ -1,6 +1,6 @@
 ------------------------------ MODULE MC_Chain ------------------------------
 EXTENDS Chain
-MCU == [c |-> [fam |-> "simple", L |-> 2, blk |-> 1, pf |-> ""], h |-> [fam |-> "hmac", L |-> 2, blk |-> 64, pf |-> ""]]
+MCU == [c |-> [fam |-> "simple", L |-> 2, blk |-> 1, pf |-> "", fl |-> 1, ss |-> FALSE], h |-> [fam |-> "hmac", L |-> 2, blk |-> 64, pf |-> "", fl |-> 1, ss |-> FALSE]]
 MCSuites == { [cu |-> "c", hu |-> "h", hc |-> FALSE],       \* AES-CBC encrypt + HMAC, cipher then hash
               [cu |-> "sync", hu |-> "h", hc |-> TRUE],     \* AES-CBC decrypt + HMAC, hash then cipher
               [cu |-> "c", hu |-> "sync", hc |-> FALSE],    \* cipher only
